@@ -142,6 +142,16 @@ CHECKS = {
              "repeated runs of the rebuilt flex under perturbed allocators and environments, -o against -t, valgrind's definedness "
              "checker on a sample, and the stage1/stage2 bootstrap comparison - these runs are exploration, not proof.",
         design="DESIGN.md section 6 C18", technique="machine-checked non-interference proof (Rocq) for the transition store + differential runs under perturbed allocators"),
+    "C20": dict(
+        text="Rocq theorems (coq/M4Quote.v): C20_user_code_verbatim_actions_and_blocks and C20_user_code_verbatim_top_and_section3 - for EVERY "
+             "byte string u, the text flex hands to m4 for a region of user code (the m4 quotes around flex's rewriting of [[ and ]], both "
+             "rewritings found in the source) expands, under a model of GNU m4's scanner with changequote([[,]]), to exactly u with m4 back "
+             "outside quotes; C20_source_uses_these_strings ties the four escape strings to scan.l / main.c on every run (regenerated "
+             "SourceFacts.v). The m4 model is compared with the real m4 on generated streams; specifications with recorded statements in "
+             "every kind of user-code region are compiled and print text and __LINE__ of each statement: text verbatim, __LINE__ = input "
+             "line (or output line and no #line at all with -L / noline), every '#line N \"out\"' numbers the following line. The #line "
+             "part is validation of emitted files, not a theorem.",
+        design="DESIGN.md section 6 C20", technique="machine-checked proof (Rocq) of the m4 quoting round trip + source-fact translator + text / __LINE__ read back from compiled scanners"),
 }
 
 NOT_YET = {
